@@ -80,6 +80,9 @@ type ErrPolicy struct {
 
 // derivedSet computes the values derived from e inside fn (and closures):
 // wrappers, e.Error(), phis, cells.
+// DerivedSet is exported for rules that need the values an error flows into.
+func DerivedSet(e ssa.Value) map[ssa.Value]bool { return derivedSet(e) }
+
 func derivedSet(e ssa.Value) map[ssa.Value]bool {
 	d := map[ssa.Value]bool{e: true}
 	work := []ssa.Value{e}
